@@ -69,6 +69,15 @@ func checkTables(c *mon.Ctx, stage string, idx int64, r *rand.Rand, kind refts.T
 	var secs []*astits.PSISection
 	limit := 0
 	for j := 0; j < nsec; j++ {
+		if fill == 3 {
+			// a section of exactly the largest length the table allows (or one / two bytes less)
+			if s := gen.ExactSection(r, kind, gen.MaxSectionLength(kind)-r.IntN(3)); s != nil {
+				secs = append(secs, s)
+				c.Count("sections_of_maximal_length")
+				continue
+			}
+			fill = 2
+		}
 		secs = append(secs, gen.RandomSection(r, kind, limit, fill))
 	}
 	ptr := 0
@@ -266,6 +275,9 @@ func runC13(c *mon.Ctx) {
 			fill := int(k % 3)
 			if nsec > 1 && fill == 2 {
 				fill = 1
+			}
+			if k%40 == 7 {
+				nsec, fill = 1, 3
 			}
 			checkTables(c, "tables", idx, r, kind, nsec, fill)
 			if k == 0 {
